@@ -307,6 +307,7 @@ struct MFile {
 	int              arch     = 0;      // 0 text, 1 binary, 2 xml
 	bool             is_array = false;  // an owning array (extensions + elements) or a view (elements only)
 	int              base     = 0;      // index base of every dimension of the saved array (0, or 1 for the re-indexed variant)
+	bool             exact_empty = false;  // the saved array was empty with specified extents (leading extent 0, the others >= 1)
 	int              D        = 0;
 	int              n[MAXD]{};
 	std::vector<i64> v;
